@@ -132,6 +132,19 @@ except Exception as e:  # noqa
     miss.append(f'extract_pass: {e}')
     ps = None
 
+try:
+    import extract_calc
+    try:
+        ks = extract_calc.extract(open(os.path.join(src, 'schedule.py')).read())
+        ok.append('calc_src')
+    except Exception as e:  # noqa
+        ks = extract_calc.PINNED
+        miss.append(f'calc_src: {e}')
+    vals['calc_src'] = ks
+except Exception as e:  # noqa
+    miss.append(f'extract_calc: {e}')
+    ks = None
+
 
 def write_if_changed(path, content):
     os.makedirs(os.path.dirname(path), exist_ok=True)
@@ -166,6 +179,8 @@ if ss is not None:
     write_if_changed(os.path.join(lean, 'PjVerif', 'Extracted', 'ScheduleSrc.lean'), extract_schedule.to_lean(ss))
 if ps is not None:
     write_if_changed(os.path.join(lean, 'PjVerif', 'Extracted', 'PassSrc.lean'), extract_pass.to_lean(ps))
+if ks is not None:
+    write_if_changed(os.path.join(lean, 'PjVerif', 'Extracted', 'CalcSrc.lean'), extract_calc.to_lean(ks))
 os.makedirs(os.path.join(verif, 'out'), exist_ok=True)
 write_if_changed(os.path.join(verif, 'out', 'extracted.json'), json.dumps(vals, indent=1))
 print(json.dumps({'ok': ok, 'miss': miss}))
